@@ -926,7 +926,48 @@ fn gen_conf(rng: &mut Rng) -> Option<f64> {
     }
 }
 
+/// A hub: 3-4 assertions on one side that are pairwise independent (distinct actors, disjoint
+/// evidence) plus one assertion that shares an actor or an evidence id with every one of them, so
+/// that ALL of them are one group. Recorded hub-last, hub-first and shuffled (the orders of
+/// `random_case`), with a few unrelated assertions mixed in. Merging several earlier groups at once
+/// is the step small multisets (<= 3) never exercise.
+fn gen_hub_case(rng: &mut Rng) -> (Vec<Asr>, bool) {
+    let functional = rng.chance(1, 3);
+    let stance = if rng.chance(2, 3) { Stance::Support } else { Stance::Reject };
+    let tgt = 0u8;
+    let base = |actor: u8, ev: u8, rng: &mut Rng| Asr {
+        actor: Some(actor), ev, tgt, stance, conf: Some(*rng.pick(&[0.35, 0.5, 0.65])), mode: rng.below(2) as usize,
+        from: None, until: None, life: Life::Active, sugar: false, challenge: 0,
+    };
+    let four = rng.bool();
+    let mut v: Vec<Asr> = if four {
+        // G1 (a0, no evidence) G2 (a1, e0) G3 (a2, e1) G4 (a3, e2); hub = a0 citing e0+e1+e2
+        vec![base(0, 0, rng), base(1, 0b001, rng), base(2, 0b010, rng), base(3, 0b100, rng)]
+    } else {
+        // G1 (a0, e0) G2 (a1, e1) G3 (a2, e2); hub = a3 citing e0+e1+e2
+        vec![base(0, 0b001, rng), base(1, 0b010, rng), base(2, 0b100, rng)]
+    };
+    rng.shuffle(&mut v);
+    // unrelated extras (other side / rival value), placed before the hub
+    for _ in 0..rng.usize(3) {
+        let mut x = base(rng.below(3) as u8, 0, rng);
+        x.stance = if stance == Stance::Support { Stance::Reject } else { Stance::Support };
+        if rng.bool() {
+            x.tgt = 1;
+            x.stance = Stance::Support;
+        }
+        let at = rng.usize(v.len() + 1);
+        v.insert(at, x);
+    }
+    let hub = base(if four { 0 } else { 3 }, 0b111, rng);
+    v.push(hub);
+    (v, functional)
+}
+
 fn gen_case(rng: &mut Rng) -> (Vec<Asr>, bool) {
+    if rng.chance(1, 7) {
+        return gen_hub_case(rng);
+    }
     let functional = rng.bool();
     let n = rng.weighted(&[3, 8, 14, 22, 20, 14, 10, 9]);
     let mut v: Vec<Asr> = vec![];
@@ -1043,6 +1084,10 @@ fn case_json(asrs: &[Asr], functional: bool) -> Value {
 fn random_case(case: u64, rng: &mut Rng, st: &mut Stats, thorough: bool) {
     let (asrs, functional) = gen_case(rng);
     let n = asrs.len();
+    if n >= 4 && asrs.last().map(|a| a.ev == 0b111 && a.challenge == 0 && a.from.is_none()).unwrap_or(false)
+        && asrs.iter().filter(|a| a.stance == asrs[n - 1].stance && a.tgt == 0).count() >= 4 {
+        st.count("hub_cases_merging_three_or_more_groups");
+    }
     let mut queries: Vec<Query> = (0..if thorough { 10 } else { 7 }).map(|_| gen_query(rng)).collect();
     queries[0] = Query { at: None, spelling: 0, policy: PolicyReq::default(), form: 0 };
     let mut orders = if n <= 3 || (n == 4 && thorough) {
@@ -1615,6 +1660,7 @@ fn main() {
     }
     run.floor("ref_comparisons", 5000);
     run.floor("bridge_merging_cases", 100);
+    run.floor("hub_cases_merging_three_or_more_groups", 20);
     run.floor("permutations_compared", 1000);
     run.floor("functional_rival_cases", 100);
     run.floor("only_excluded_cases", 50);
